@@ -7,27 +7,29 @@ ENGINE = "bitarray"
 MOD = "vlib.engines.bitarray"
 
 
-def mc_module(n):
+def mc_module(n, idxlo=-2, vals=(-1, 0, 1, 2)):
     return (
         "MCBitarray",
         f"""---- MODULE MCBitarray ----
 EXTENDS Bitarray
-cIdxLo == -2
-cVals == {{-1, 0, 1, 2}}
+cIdxLo == {idxlo}
+cVals == {{{", ".join(str(v) for v in vals)}}}
 ====
 """,
     )
 
 
-def cfg(n, emit=True):
+def cfg(n, emit=True, idxhi=None, hdepth=0):
     return f"""CONSTANTS
   N = {n}
   IdxLo <- cIdxLo
-  IdxHi = {n + 1}
+  IdxHi = {n + 1 if idxhi is None else idxhi}
   Vals <- cVals
+  HDepth = {hdepth}
 INIT Init
 NEXT Next
-VIEW View
+{"VIEW ViewH" if hdepth else "VIEW View"}
+{"CONSTRAINT HBound" if hdepth else ""}
 INVARIANT TypeOK
 INVARIANT Refines
 INVARIANT PopOK
@@ -143,6 +145,17 @@ def run(focus, tier, seed):
         if not r.ok:
             for inv in r.invariant_violations:
                 tally.fail("C20", f"C20.model.{inv}", ENGINE, {"tlc": r.tail[-30:], "n": n}, {"model": inv})
+    # every HISTORY of up to 4 (thorough: 5) operations - reads, counts, string forms and clear() included - on two positions of a tiny
+    # array and on the two positions around the first byte boundary
+    hd = 4 if tier == "quick" else 5
+    hjobs = [dict(module=mc_module(2, 0, (0, 1)), cfg=cfg(2, True, 1, hd), workers=1, timeout=1200),
+             dict(module=mc_module(9, 7, (0, 1)), cfg=cfg(9, True, 8, hd), workers=1, timeout=1200)]
+    t3, r3 = s2c.run_s2c(MOD, focus, hjobs, tlc_parallel=2)
+    for n, r in zip((2, 9), r3):
+        d = r.as_dict()
+        d.update(spec="Bitarray", constants={"N": n, "view": "histories", "depth": hd}, mode="exhaustive over histories + emit")
+        t3.mc.append(d)
+    tally.merge(t3)
     # larger sizes: TLC simulation schedules (not exhaustive)
     sjobs = [dict(module=mc_module(n), cfg=cfg(n), workers=1, simulate=max(1, num // 40), depth=40, seed=seed + n, timeout=600) for n, num in sims]
     t2, r2 = s2c.run_s2c(MOD, focus, sjobs, tlc_parallel=6)
